@@ -933,6 +933,35 @@ PROPERTIES = {
 }
 
 
+
+# clauses added by the eighth seed wave (DESIGN.md section 21)
+_WAVE8 = {
+    'C02': "TAB7 is decided by evaluation, not by template: parse_number is followed once per region into which the constants it compares the "
+           "number with (and INT_MIN-1 .. INT_MAX+1, their negatives, 0) cut the doubles; every reachable store into valueint is the conversion "
+           "(only where C defines it) or the truncated, saturated constant of the region - through int locals, ?: and static helpers.",
+    'C06': "TAB7 by region evaluation (see C02) for cJSON_SetNumberHelper and cJSON_CreateNumber.",
+    'C07': "OWN10: bytes are written into X->valuestring / X->string of a node the function was handed only behind the clear edge of the "
+           "ownership bit that describes the field (a reference borrows its text). REFC also: a reference node under construction is handed to "
+           "cJSON_Delete only once cJSON_IsReference is set, and its key is NULL or an own copy with the constant-key bit cleared. OWN9 evaluates "
+           "the flag bits of any store to ->type (kept / cleared / set through &, |, ~, ?:), so a type word rebuilt from constants counts as clearing.",
+    'C08': "REFC: a failed step does not release what a half-built reference node still borrows from the original.",
+    'C09': "OUT1: a write straight into buffer + offset without ensure() is accepted only behind tests that establish offset < length and "
+           "length - offset >= N, N the bound of the bytes written with the terminator (bounded sprintf formats, constant-size copies).",
+    'C11': "SHP4: cJSON_Duplicate evaluated over abstract heaps on one node of every kind (with and without the two flag bits, with the payload "
+           "that kind carries) and on arrays / objects of up to three children of mixed kinds, with and without recursion: same kind, number "
+           "views, key and text whatever the kind, never a reference, children copied in order with well-formed links, source untouched (bounded).",
+    'C12': "TAB11 mirror clause: a callee without a flag that hands the constant true to a flagged function compares keys exactly whatever it "
+           "is told; a flagged function calls it only on the true edge of its flag.",
+    'C16': "ESC4: the last token of a path, once decode_pointer_inplace has turned it into the member name, is looked up as a name and never "
+           "handed to a reader of tokens (a parameter that ends up as the second argument of compare_pointers; fixpoint over the call graph).",
+    'C17': "ESC4 (see C16).",
+    'C18': "MRG5: a function that takes the null members out of a copy of the patch descends only into children known to be objects (an array "
+           "in the patch is a value as a whole); MRG1 accepts a copy of an object patch that goes through such a pruner before any other use.",
+    'C19': "LST5 covers the static helpers sort_object is split into: stores to next/prev and into records of their own, qsort on their own array.",
+}
+for _k, _t in _WAVE8.items():
+    PROPERTIES[_k]['explanation'] = PROPERTIES[_k]['explanation'] + ' ' + _t
+
 def claimed():
     return sorted(PROPERTIES)
 
